@@ -20,6 +20,10 @@ func main() {
 	selftest := flag.Bool("selftest", false, "run the overlay kill-matrix for -prop (tests the checker, not the repository)")
 	debug := flag.String("debug", "", "debug: traces:<rule>")
 	flag.Parse()
+	if strings.HasPrefix(*debug, "miss:") {
+		engine.DebugMiss(*repo, strings.TrimPrefix(*debug, "miss:"))
+		return
+	}
 	if *debug == "ctx" {
 		engine.DebugCtx(*repo)
 		return
